@@ -60,7 +60,9 @@ def check(P, cases, wd, label, res, pid, args=("-j1",), env=None, which="final",
     pdir = os.path.join(wd, label)
     fin, ini, err = dump_ram(P, pdir, args=args, env=env, tag=tag)
     if err:
-        res.violations.append(("[%s] %s program=%s" % (tag, err, P["id"]), os.path.join(pdir, tag + ".dl")))
+        from . import evalcore
+        if not evalcore.known_crash(res, pid, err):      # recorded compiler crashes are not this check's business
+            res.violations.append(("[%s] %s program=%s" % (tag, err, P["id"]), os.path.join(pdir, tag + ".dl")))
         return {"status": "dump-failed"}
     try:
         RP = ramjson.convert(fin if which == "final" else ini)
